@@ -169,6 +169,14 @@ def random_auth(rng, n):
             for tok, tv in (("prefix", 3), ("prefix", 4), ("suffix", 4), ("suffix", 5), ("prefix", 0)):
                 lines.append("req cmd=%s tok=%s c=1 tv=%d pos=1 perm=0%s" % (cmd, tok, tv, " ttl=600 path=1" if cmd == "STORE" else " foreign=1" if cmd.startswith("FETCH") else ""))
         out.append(lines)
+    # the token with blanks around it (a header parser that trims values would let it through)
+    for toklen in (0, 300):
+        lines = ["reset token=1 pow=0 cap=64" + (" toklen=%d" % toklen if toklen else "")]
+        for cmd in ("STORE", "FETCH-OUT", "FETCH-STREAM", "STOP"):
+            for tv in (6, 7, 8):
+                lines.append("req cmd=%s tok=suffix c=1 tv=%d pos=%s perm=0%s" % (cmd, tv, rng.choice(["0", "1", "last"]),
+                                                                                  " ttl=600 path=1" if cmd == "STORE" else " foreign=1" if cmd.startswith("FETCH") else ""))
+        out.append(lines)
     return out
 
 
